@@ -395,6 +395,12 @@ let () =
                     (if levels_has_rtl (List.map nat_of_int s) then 1 else 0)) !cur;
       cur := List.concat_map (fun s -> List.map (fun a -> s @ [a]) alpha) !cur
     done;
+    List.iter (fun n ->
+      List.iter (fun (pat, base, last) ->
+        let v = List.init n (fun i -> nat_of_int (if i = n - 1 then last else base)) in
+        Printf.printf "has_rtl_long\t%d\t%s\t%d\n" n pat (if levels_has_rtl v then 1 else 0))
+        ["odd", 1, 1; "odd3", 3, 3; "even", 0, 0; "even+odd", 2, 125; "max", 126, 126])
+      [127; 128; 129; 255; 256; 257; 511; 512; 513; 1024; 65535; 65536; 65537];
     Printf.printf "consts\tltr=0\trtl=1\tLTR_LEVEL=0\tRTL_LEVEL=1\tmax_explicit=%d\tmax_implicit=%d\n"
       (int_of_nat max_explicit_depth) (int_of_nat max_implicit_depth)
   | _ -> prerr_endline "usage: driver corr|tables|levels ..."; exit 2
